@@ -12,7 +12,9 @@
      decode   encoding/json on a raw STH      sig_ok   the log-signature verdict
      sign / verify                            the witness key
    [strict_len] = false is the code as it is; true is the code with pending_fixes/C19-1
-   (proof nodes must be hlen bytes long) - the only difference between the two. *)
+   (proof nodes must be hlen bytes long).  [cosign_held] = false is the code as it is (refusals
+   and same-STH no-ops answer with the stored bytes verbatim); true is the code with
+   pending_fixes/C19-2 (they answer with the held STH cosigned).  Nothing else differs. *)
 From Coq Require Import NArith List Bool.
 From Coq.Strings Require Import Byte.
 From V Require Import Base.Bytes Merkle.Merkle.
@@ -85,6 +87,7 @@ Section Witness.
   Variable H : bytes -> bytes.
   Variable hlen : nat.
   Variable strict_len : bool.
+  Variable cosign_held : bool.
   (* None: not a configured log; Some None: configured, but the key string is not the base64
      of 32 bytes; Some (Some h): configured, id hash h *)
   Variable idhash : logid -> option (option bytes).
@@ -117,7 +120,12 @@ Section Witness.
 
   Definition sized_b (h : bytes) : bool := Nat.eqb (length h) hlen.
 
-  Definition refused (st : state) (prevRaw : bytes) : state * resp := (st, (BRaw prevRaw, EFailedPre)).
+  (* how the currently held STH is shown in refusals and no-ops *)
+  Definition held_body (prevRaw : bytes) (prev : psth) : body :=
+    if cosign_held then cosign prev else BRaw prevRaw.
+
+  Definition refused (st : state) (prevRaw : bytes) (prev : psth) : state * resp :=
+    (st, (held_body prevRaw prev, EFailedPre)).
   Definition failed (st : state) : state * resp := (st, (BNone, EOther)).
 
   Definition commit (st : state) (id : logid) (raw : bytes) (next : psth) (f : dbfault) : state * resp :=
@@ -144,13 +152,13 @@ Section Witness.
                     match parse prevRaw id with
                     | inr _ => failed st
                     | inl prev =>
-                        if p_size next <? p_size prev then refused st prevRaw
+                        if p_size next <? p_size prev then refused st prevRaw prev
                         else if p_size next =? p_size prev then
-                          (if negb (bytes_eqb (p_root next) (p_root prev)) then refused st prevRaw
-                           else (st, (BRaw prevRaw, EOk)))
-                        else if strict_len && negb (forallb sized_b proof) then refused st prevRaw
+                          (if negb (bytes_eqb (p_root next) (p_root prev)) then refused st prevRaw prev
+                           else (st, (held_body prevRaw prev, EOk)))
+                        else if strict_len && negb (forallb sized_b proof) then refused st prevRaw prev
                         else if negb (verify_consistency H (p_size prev) (p_size next) proof (p_root prev) (p_root next))
-                             then refused st prevRaw
+                             then refused st prevRaw prev
                         else commit st id raw next f
                     end
                 end
